@@ -42,7 +42,7 @@ PROGS = ["10.00", "50.00", "10.00", "50.00", "90.00"]      # progress per timest
 
 
 def consts(slots, ts):
-    return {"JobSlot": str(slots), "DS": '{"d1", "d2"}', "Bytes": '{"x", "y"}', "TS": "{" + ", ".join(map(str, range(1, ts + 1))) + "}",
+    return {"JobSlot": str(slots), "DS": '{"d1", "d2"}', "Bytes": '{"x", "y", "e"}', "TS": "{" + ", ".join(map(str, range(1, ts + 1))) + "}",
             "StoresLastSeen": "TRUE"}
 
 
